@@ -44,7 +44,7 @@ UNITS.append(Unit('backmp11.do_process_event', PROPS, 'backmp11',
         rewrites=[dict(name='SCOPE-dispatch', pat='dispatch_table :: dispatch (', rep='dispatch_table_dispatch (', min=0, max=1), dict(name='SCOPE-internal', pat='dispatch_table :: internal_dispatch (', rep='dispatch_table_internal_dispatch (', min=0, max=1),
                   dict(name='fsm-argument', pat='get_fsm_argument ( )', rep='self', min=1, max=1),
                   dict(name='RANGEFOR', pat='for ( const auto state_id : self -> m_active_state_ids ) {', rep='for ( size_t __i = 0 ; __i < nr_regions ; ++ __i ) { const uint16_t state_id = self -> m_active_state_ids [ __i ] ;', min=1, max=1),
-                  dict(name='GHOST-regions-done', pat='if ( ! ( result & handled_true_or_deferred ) )', rep='g_acc_regions = g_acc ; if ( ! ( result & handled_true_or_deferred ) )', min=1, max=1)]),
+                  dict(name='GHOST-regions-done', pat='if $$C { result $1 dispatch_table_internal_dispatch (', rep='g_acc_regions = g_acc ; if $$C { result $1 dispatch_table_internal_dispatch (', min=1, max=1)]),
     loops={0: '__CPROVER_assigns(region_id, result, g_region_next, g_acc, g_ntaken, __CPROVER_object_whole(self->m_active_state_ids))\n'
               '__CPROVER_loop_invariant(region_id <= nr_regions && g_region_next == region_id && (int)result == g_acc && ACC_INV && !g_internal_tried)\n'
               '__CPROVER_decreases(nr_regions - region_id)',
